@@ -25,7 +25,11 @@
 (* for timestamps near the epoch: a datetime with wall-clock time w (ms since  *)
 (* 1970-01-01T00:00 on its own clock) and UTC offset o denotes the instant     *)
 (* w - o; a naive datetime is taken as UTC (what DateType.serialize sends on   *)
-(* the prepared path); the literal must be exactly that integer.               *)
+(* the prepared path); the literal must be exactly that integer.  The SIGN of  *)
+(* a float / decimal literal is decided too (-0.0 is not 0.0).                 *)
+(* Statements with SEVERAL parameters (tag "params", query (%s, %s ..)): every *)
+(* parameter is substituted as its own literal, also next to parameters that   *)
+(* compare equal to it (1 / True, 0 / False, 0.0 / -0.0, (0,) / (-0.0,)).      *)
 EXTENDS CqlLex, Integers
 
 CONSTANT Rich          \* BOOLEAN: larger payload alphabets and more children (thorough tier)
@@ -126,7 +130,7 @@ PFeed(ps, emit) == IF Len(emit) = 0 THEN ps
 
 RECURSIVE Matches(_, _)
 Matches(t, w) ==
-    CASE w.k = "number" -> t.k \in {"int", "float"}
+    CASE w.k = "number" -> t.k \in {"int", "float"} /\ ((Len(t.v) > 0 /\ t.v[1] = "-") <=> w.v = <<"-">>)
       [] w.k = "anystr" -> t.k = "str"
       [] w.k = "anyint" -> t.k = "int"
       [] w.k = "null"   -> t.k = "null"
@@ -167,10 +171,10 @@ StrPayloads ==
     \cup IF Rich THEN { <<"'", "'">>, <<"U+00E9", "'", "\n">>, <<"%", "s">>, <<"x", "'", ";">>, <<"0", "x">>, <<"n","u","l","l">> }
          ELSE {}
 BytesPayloads == { <<>>, <<"0", "0">>, <<"2", "7", "f", "f">> }              \* hex digits of the bytes
-IntPayloads   == { <<"0">>, <<"-", "7">>,
+IntPayloads   == { <<"0">>, <<"1">>, <<"-", "7">>,
                    <<"9","2","2","3","3","7","2","0","3","6","8","5","4","7","7","5","8","0","8">> }    \* 2^63
 BoolPayloads  == BoolWords
-FloatPayloads == { <<"1", ".", "5">>, <<"-", "0", ".", "0">>, <<"1", "e", "+", "3", "0", "0">>,
+FloatPayloads == { <<"1", ".", "5">>, <<"0", ".", "0">>, <<"-", "0", ".", "0">>, <<"1", "e", "+", "3", "0", "0">>,
                    <<"N", "a", "N">>, <<"I","n","f","i","n","i","t","y">>, <<"-","I","n","f","i","n","i","t","y">> }
 UuidPayloads  == { <<"1","2","3","e","4","5","6","7","-","e","8","9","b","-","1","2","d","3","-","a","4","5","6","-",
                      "4","2","6","6","1","4","1","7","4","0","0","0">>,
@@ -261,7 +265,16 @@ Level3 ==
 Deep ==  {C(t, <<C(t2, <<c>>)>>) : t \in {"list", "MyList"}, t2 \in {"tuple", "list"}, c \in Core2}
     \cup {C("dict", <<Kid1, C("list", <<c>>)>>) : c \in Core2}
 
-Shapes == Scalars \cup Level2 \cup Level3 \cup Deep \cup {C("list", <<s>>) : s \in DtzShapes}
+\* several parameters of ONE statement, bound as (%s, %s) / (%s, %s, %s): values that compare (and hash) equal in
+\* Python although they are different values for Cassandra, next to each other in every order
+ParamSet == { S("int", <<"0">>), S("int", <<"1">>), S("bool", <<"t","r","u","e">>), S("bool", <<"f","a","l","s","e">>),
+              S("float", <<"0", ".", "0">>), S("float", <<"-", "0", ".", "0">>),
+              C("tuple", <<S("int", <<"0">>)>>), C("tuple", <<S("float", <<"-", "0", ".", "0">>)>>), Kid1 }
+ParamTriple == { S("int", <<"1">>), S("bool", <<"t","r","u","e">>), S("float", <<"-", "0", ".", "0">>) }
+ParamLists ==      {C("params", <<a, b>>) : a \in ParamSet, b \in ParamSet}
+              \cup {C("params", <<a, b, c>>) : a \in ParamTriple, b \in ParamTriple, c \in ParamTriple}
+
+Shapes == Scalars \cup Level2 \cup Level3 \cup Deep \cup {C("list", <<s>>) : s \in DtzShapes} \cup ParamLists
 
 RECURSIVE Expect(_)
 Expect(s) ==
@@ -269,14 +282,14 @@ Expect(s) ==
       [] s.tag \in BytesTags  -> T("hex", s.p)
       [] s.tag \in IntTags    -> T("int", s.p)
       [] s.tag = "bool"       -> T("bool", s.p)
-      [] s.tag \in FloatTags  -> T("number", <<>>)
+      [] s.tag \in FloatTags  -> T("number", IF s.p[1] = "-" THEN <<"-">> ELSE <<>>)
       [] s.tag \in UuidTags   -> T("uuid", s.p)
       [] s.tag \in AnyIntTags -> T("anyint", <<>>)
       [] s.tag = TzTag        -> T("int", IntChars(EpochMs(s.p)))
       [] s.tag \in AnyStrTags -> T("anystr", <<>>)
       [] s.tag = "none"       -> T("null", <<>>)
       [] s.tag \in ListTags   -> T("list", [i \in 1..Len(s.kids) |-> Expect(s.kids[i])])
-      [] s.tag = "valueseq"   -> T("tuple", [i \in 1..Len(s.kids) |-> Expect(s.kids[i])])
+      [] s.tag \in {"valueseq", "params"} -> T("tuple", [i \in 1..Len(s.kids) |-> Expect(s.kids[i])])
       [] s.tag \in SetTags    -> T("set", [i \in 1..Len(s.kids) |-> Expect(s.kids[i])])
       [] s.tag \in MapTags    -> T("map", [i \in 1..(Len(s.kids) \div 2) |->
                                                <<Expect(s.kids[2 * i - 1]), Expect(s.kids[2 * i])>>])
@@ -296,7 +309,7 @@ RefEncode(s) ==
       [] s.tag \in AnyStrTags -> QuoteStr(<<"1", ":", "2">>)
       [] s.tag = "none"       -> <<"N", "U", "L", "L">>
       [] s.tag \in ListTags   -> <<"[">> \o Joined([i \in 1..Len(s.kids) |-> RefEncode(s.kids[i])], CommaSp) \o <<"]">>
-      [] s.tag = "valueseq"   -> <<"(">> \o Joined([i \in 1..Len(s.kids) |-> RefEncode(s.kids[i])], CommaSp) \o <<")">>
+      [] s.tag \in {"valueseq", "params"} -> <<"(">> \o Joined([i \in 1..Len(s.kids) |-> RefEncode(s.kids[i])], CommaSp) \o <<")">>
       [] s.tag \in SetTags    -> <<"{">> \o Joined([i \in 1..Len(s.kids) |-> RefEncode(s.kids[i])], CommaSp) \o <<"}">>
       [] s.tag \in MapTags    -> <<"{">> \o Joined([i \in 1..(Len(s.kids) \div 2) |->
                                      RefEncode(s.kids[2 * i - 1]) \o <<":", " ">> \o RefEncode(s.kids[2 * i])], CommaSp) \o <<"}">>
@@ -324,7 +337,8 @@ TFinish  == Finish /\ Consume(AtEnd(mode, cur))
 \* the few shapes the vacuity witnesses need (a subset of Shapes), INIT of the witness configuration
 WitnessShapes == {C("MyList", <<C("tuple", <<C("list", <<Kid2>>)>>)>>),
                   C("set", <<>>), C("list", <<Kid1>>), C("list", <<C("dict", <<Kid1, Kid2>>)>>),
-                  S(TzTag, <<"0", "@", "+","7","2","0","0","0","0","0">>)}
+                  S(TzTag, <<"0", "@", "+","7","2","0","0","0","0","0">>),
+                  C("params", <<S("int", <<"1">>), S("bool", <<"t","r","u","e">>)>>)}
 TInitW == /\ shape \in WitnessShapes
           /\ want = Expect(shape)
           /\ n = RefEncode(shape) /\ form = "raw" /\ bare = FALSE
@@ -346,6 +360,8 @@ Witness_Depth3     == ~(Len(stack) = 3 /\ shape.tag = "MyList" /\ stack[3].st = 
 Witness_MapInList  == ~(done /\ Accepted /\ out[1].k = "list" /\ \E i \in 1..Len(out[1].v) : out[1].v[i].k = "map")
 Witness_EmptyBrace == ~(done /\ Accepted /\ out[1].k = "empty_brace")
 Witness_AwareBeforeEpoch == ~(done /\ Accepted /\ shape.tag = TzTag /\ out[1].v = <<"-","7","2","0","0","0","0","0">>)
+Witness_EqualButDifferent == ~(done /\ Accepted /\ shape.tag = "params" /\ Len(out[1].v) = 2
+                                /\ out[1].v[1].k = "int" /\ out[1].v[1].v = <<"1">> /\ out[1].v[2].k = "bool")
 Witness_QuoteInStr == ~(done /\ Accepted /\ out[1].k = "list" /\ Len(out[1].v) = 1 /\ out[1].v[1].k = "str"
                           /\ \E i \in 1..Len(out[1].v[1].v) : out[1].v[1].v[i] = "'")
 =============================================================================
